@@ -65,15 +65,20 @@ def encReply : Reply → String
   | .generic => "generic"
   | .iam n => "iam\t" ++ enc n
   | .stranger => "stranger"
+  | .silent => "silent"
 
 /-- the driver instantiates the password test with equality of the secrets (the harness uses the
 bot's real salted hashes) -/
 def pwEq (stored attempt : Str) : Bool := stored == attempt
 
-def doCmd (pst : PSt) (c : Option Cmd) : PSt × String :=
+structure DSt where
+  pst : PSt := {}
+  amb : Ambient := {}
+
+def doCmd (d : DSt) (c : Option Cmd) : DSt × String :=
   match c with
-  | some c => let r := pstep pwEq pst c; (r.1, encReply r.2)
-  | none => (pst, "bad-op")
+  | some c => let r := pstepA d.amb pwEq d.pst c; ({ d with pst := r.1 }, encReply r.2)
+  | none => (d, "bad-op")
 
 def dumpLog (pst : PSt) : String :=
   joinOr "," (sortStrs (pst.log.map (fun l => toString l.uid ++ ":" ++ toString l.t ++ ":" ++ enc l.host)).eraseDups)
@@ -109,27 +114,29 @@ def dstep (st : St) : List String → St × String
   | ["isUserHostmask", s] => (st, match dec s with | some s => encB (isUserHostmask s) | none => "bad-op")
   | _ => (st, "bad-op")
 
-def pdstep (pst : PSt) : List String → PSt × String
+def pdstep (d : DSt) : List String → DSt × String
   | ["reset", t] =>
     match t.toInt? with
-    | some t => ({ st := { db := { Db.initial with timeout := t } } }, "ok")   -- shipped default capabilities
-    | none => (pst, "bad-op")
-  | ["p_register", p, n, pw] => doCmd pst (do pure (Cmd.register (← dec p) (← dec n) (← dec pw)))
-  | ["p_identify", p, n, pw] => doCmd pst (do pure (Cmd.identify (← dec p) (← dec n) (← dec pw)))
-  | ["p_unidentify", p] => doCmd pst (do pure (Cmd.unidentify (← dec p)))
-  | ["p_hostadd", p, n, m, pw] => doCmd pst (do pure (Cmd.hostAdd (← dec p) (← decOpt n) (← dec m) (← dec pw)))
-  | ["p_hostrm", p, n, m, pw] => doCmd pst (do pure (Cmd.hostRemove (← dec p) (← decOpt n) (← dec m) (← dec pw)))
-  | ["p_secure", p, pw, b] => doCmd pst (do pure (Cmd.setSecure (← dec p) (← dec pw) (← decBool b)))
-  | ["p_whoami", p] => doCmd pst (do pure (Cmd.whoami (← dec p)))
-  | ["p_tick", dt] => doCmd pst (do pure (Cmd.tick (← dt.toNat?)))
-  | ["p_log"] => (pst, dumpLog pst)
+    | some t => ({ d with pst := { st := { db := { Db.initial with timeout := t } } } }, "ok")   -- shipped default capabilities
+    | none => (d, "bad-op")
+  | ["p_ambient", a, b, c] =>
+    match a.toNat?, b.toNat?, c.toNat? with
+    | some a, some b, some c => ({ d with amb := { aborting := a, pre := b, post := c } }, "ok")
+    | _, _, _ => (d, "bad-op")
+  | ["p_register", p, n, pw] => doCmd d (do pure (Cmd.register (← dec p) (← dec n) (← dec pw)))
+  | ["p_identify", p, n, pw] => doCmd d (do pure (Cmd.identify (← dec p) (← dec n) (← dec pw)))
+  | ["p_unidentify", p] => doCmd d (do pure (Cmd.unidentify (← dec p)))
+  | ["p_hostadd", p, n, m, pw] => doCmd d (do pure (Cmd.hostAdd (← dec p) (← decOpt n) (← dec m) (← dec pw)))
+  | ["p_hostrm", p, n, m, pw] => doCmd d (do pure (Cmd.hostRemove (← dec p) (← decOpt n) (← dec m) (← dec pw)))
+  | ["p_secure", p, pw, b] => doCmd d (do pure (Cmd.setSecure (← dec p) (← dec pw) (← decBool b)))
+  | ["p_changename", p, n, nn, pw] => doCmd d (do pure (Cmd.changename (← dec p) (← dec n) (← dec nn) (← dec pw)))
+  | ["p_whoami", p] => doCmd d (do pure (Cmd.whoami (← dec p)))
+  | ["p_tick", dt] => doCmd d (do pure (Cmd.tick (← dt.toNat?)))
+  | ["p_log"] => (d, dumpLog d.pst)
   | ["p_dump"] =>
-    -- records only: on the live bot every incoming message triggers lookups of the sender that
-    -- are not part of the command (checkIgnored, command capabilities, reply options); they
-    -- only touch the caches, whose transparency is proved and tested on the dictionary stream
-    (pst, "U=" ++ joinOr ";" (sortStrs (pst.st.db.users.map (dumpUser pst.st.db.timeout pst.st.now))) ++
-      "|N=" ++ toString pst.st.nextId)
-  | fs => let r := dstep pst.st fs; ({ pst with st := r.1 }, r.2)
+    (d, "U=" ++ joinOr ";" (sortStrs (d.pst.st.db.users.map (dumpUser d.pst.st.db.timeout d.pst.st.now))) ++
+      "|N=" ++ toString d.pst.st.nextId)
+  | fs => let r := dstep d.pst.st fs; ({ d with pst := { d.pst with st := r.1 } }, r.2)
 
-def handler : Driver.Handler := { σ := PSt, init := {}, step := pdstep }
+def handler : Driver.Handler := { σ := DSt, init := {}, step := pdstep }
 end C04
